@@ -31,7 +31,7 @@ EXCS = [
     ("AssertionError", "AssertionError('line one\\nline two')", "line two"),
     ("OSError", "OSError('No such thing')", "No such thing"),
 ]
-KINDS = ["body", "callback_local", "callback_remote"]
+KINDS = ["body", "callback_local", "callback_remote", "body_peer_dropped"]
 
 
 class MyRemoteFailure(Exception):
@@ -103,7 +103,7 @@ def start_siblings(lab, k, stop):
     """echo siblings: returns list of (thread, log)"""
     out = []
     for s in range(k):
-        ch = lab.gw.remote_exec("for x in channel:\n    channel.send(('echo', x))\n")
+        ch = lab.gw.remote_exec("for x in channel:\n    channel.send((7, x))\n")
         log = {"sent": 0, "ok": 0, "err": None}
 
         def pump(ch=ch, log=log, s=s):
@@ -113,7 +113,7 @@ def start_siblings(lab, k, stop):
                     ch.send((s, i))
                     log["sent"] += 1
                     back = ch.receive(5)
-                    if back == ("echo", (s, i)):
+                    if back == (7, (s, i)):
                         log["ok"] += 1
                     else:
                         log["err"] = f"wrong echo {back!r}"
@@ -138,7 +138,44 @@ def run_program(res: Result, lab, prog, label, hid):
     sibs = start_siblings(lab, prog["siblings"], stop)
     gw = lab.gw
     try:
-        if kind == "body":
+        if kind == "body_peer_dropped":
+            # the gw.remote_exec(src).setcallback(cb, endmarker) idiom: nobody holds the channel when the body fails.
+            # The failure cannot be raised anywhere; it must still be reported (RemoteError.warn) and the callback
+            # gets its items and the endmarker.
+            from execnet import gateway_base as gb
+
+            name, ctor, msg = EXCS[exc]
+            src = ("class MyRemoteFailure(Exception):\n    pass\n"
+                   f"for i in range({p}):\n    channel.send(({hid}, i))\n"
+                   "try:\n    channel.receive()\nexcept EOFError:\n    pass\n"  # wait until the initiator dropped its end
+                   + ("1 / 0\n" if ctor is None else f"raise {ctor}\n"))
+            warned = []
+            orig_warn = gb.RemoteError.warn
+
+            def recording_warn(self_):
+                warned.append(self_.formatted)
+
+            gb.RemoteError.warn = recording_warn
+            try:
+                got = []
+                ch = gw.remote_exec(src)
+                ch.setcallback(got.append, endmarker="<end>")
+                del ch
+                gc.collect()
+                from vlib import pairs
+
+                pairs.wait_until(lambda: "<end>" in got, 6.0)
+                pairs.wait_until(lambda: warned, 1.0)
+            finally:
+                gb.RemoteError.warn = orig_warn
+            if got != [(hid, i) for i in range(p)] + ["<end>"]:
+                res.violation(m("callback-transcript-wrong"), f"{label}: {short(got)}")
+            mine = [w for w in warned if name in w and msg in w]
+            if len(mine) != 1:
+                res.violation(m("failure-of-dropped-channel-not-reported"), f"{label}: {len(mine)} warnings about this failure (all: {short(warned, 200)})")
+            else:
+                res.count("remoteerrors_checked")
+        elif kind == "body":
             src, errline = body_source(hid, p, exc)
             ch = gw.remote_exec(src)
             got, first_error, terminal = [], None, None
@@ -306,6 +343,11 @@ def run_shard(spec):
                     res.sig(lab.sched.signature()[:4000])
                     lab.close()
                 lab = chanlab.Lab(spec.get("transport", "pipe"), rng.getrandbits(32))
+                if rng.random() < 0.3:
+                    # string coercion settings must not change how failures travel
+                    cfg = rng.choice(((True, True), (False, True), (False, False)))
+                    lab.gw.reconfigure(py2str_as_py3str=cfg[0], py3str_as_py2str=cfg[1])
+                    res.count("labs_with_reconfigured_gateway")
             prog = gen_program(rng, kind)
             hid += 1
             if ln is None:
